@@ -204,7 +204,13 @@ def run(tier: str, seed: int, known_matchers=None) -> int:
     conv = gen_conv(tier, rnd)
     cmpv = gen_cmp(tier, rnd)
     chains = gen_chains(tier, rnd)
-    evs = conv + cmpv + chains
+    # conversions and comparisons the repository's own unit tests perform (recorded by a pytest plugin that lives in /verif)
+    from . import repo_units
+    ru = repo_units.events(tier, seed)
+    repo_ev = [e for e in ru['events'] if e['ev'] in ('rto', 'rcmp')]
+    v.extra.update(repo_test_conversion_events=sum(e['ev'] == 'rto' for e in repo_ev), repo_test_comparison_events=sum(e['ev'] == 'rcmp' for e in repo_ev),
+                   repo_tests_run=ru['pytest_tail'])
+    evs = conv + cmpv + chains + repo_ev
     res = validate('Trace_Units', evs)
     v.states, v.transitions = res.states, res.transitions
     v.traces = len(evs)
@@ -222,7 +228,8 @@ def run(tier: str, seed: int, known_matchers=None) -> int:
     v.rule = ('every kind x every ordered unit pair (enumerated from the table TLC exports from Units.tla) x value grid '
               '(fixed decades + seeded random mantissas/exponents in the kind\'s legal sign domain); comparisons: every '
               'same-family kind pair x ordered unit pair x {same magnitude re-expressed, relative gaps 1e-6/0.5 either side, '
-              'zero, zero-vs-tiny, sign}; distinct = distinct (kind,units,values) tuples')
+              'zero, zero-vs-tiny, sign}; plus every top-level to() / comparison the repository\'s own unit tests perform on well-formed operands '
+              '(one per (call, kinds, units) bucket); distinct = distinct (kind,units,values) tuples')
     v.exhaustive = False
     v.extra['ordered_unit_pairs_covered'] = len(pairs)
     v.extra['unit_pairs_exhaustive'] = True
